@@ -113,7 +113,7 @@ pub fn corpus_units(space: &Space, filter: Option<&dyn Fn(&gen::Template) -> boo
 }
 
 /// Width sweep: calls `f(width, out, same_as_previous_width)`.
-pub fn sweep(text: &str, cfg: &Cfg, tier: Tier, mut f: impl FnMut(usize, &FmtOut, bool)) {
+pub fn sweep(text: &str, cfg: &Cfg, tier: Tier, mut f: impl FnMut(usize, &FmtOut, bool) -> bool) {
     let mut prev: Option<(String, fmt::Status, usize)> = None;
     for w in widths_for(cfg, tier) {
         let out = fmt::format(text, cfg, w);
@@ -121,7 +121,9 @@ pub fn sweep(text: &str, cfg: &Cfg, tier: Tier, mut f: impl FnMut(usize, &FmtOut
             Some((t, s, n)) => *t == out.text && *s == out.status && *n == out.entries.len(),
             None => false,
         };
-        f(w, &out, same);
+        if !f(w, &out, same) {
+            break;
+        }
         prev = Some((out.text.clone(), out.status.clone(), out.entries.len()));
     }
 }
